@@ -227,3 +227,131 @@ func sweep(rep *Report, prop *Prop, tier string) {
 	fmt.Printf("sensitivity sweep: %d compiling variants of %d analysed functions, %d detected, %d not detected, %d did not compile\n",
 		rep.Variants.Generated, len(rep.Functions), rep.Variants.Detected, rep.Variants.Generated-rep.Variants.Detected, rep.Variants.Skipped)
 }
+
+// SweepAll is a development aid (never a registered command): it generates the
+// variants of every function analysed by any property whose package path has
+// the given prefix and lists those that NO property reports.
+func SweepAll(pkgPrefix string, max int) int {
+	type base struct {
+		prop *Prop
+		sig  map[string]bool
+	}
+	prog, err := Load(LoadConfig{})
+	if err != nil {
+		fmt.Println(err)
+		return 2
+	}
+	fns := map[string]bool{}
+	var bases []base
+	for _, id := range IDs() {
+		p := Lookup(id)
+		rep := newReport(id, "quick")
+		func() {
+			defer func() { recover() }()
+			c := &Ctx{Prop: p, Tier: "quick", P: prog, Config: "default", rep: rep}
+			p.Run(c)
+		}()
+		for f := range rep.Functions {
+			if strings.HasPrefix(f, pkgPrefix) {
+				fns[f] = true
+			}
+		}
+		bases = append(bases, base{p, rep.signature()})
+	}
+	vars := genVariants(prog, fns)
+	if max > 0 && len(vars) > max {
+		step := float64(len(vars)) / float64(max)
+		var thin []variant
+		for i := 0; i < max; i++ {
+			thin = append(thin, vars[int(float64(i)*step)])
+		}
+		vars = thin
+	}
+	fmt.Printf("sweep-all: %d functions, %d variants\n", len(fns), len(vars))
+	src := map[string][]byte{}
+	for _, v := range vars {
+		if _, ok := src[v.file]; !ok {
+			b, _ := os.ReadFile(v.file)
+			src[v.file] = b
+		}
+	}
+	type result struct {
+		v    variant
+		by   []string
+		skip bool
+	}
+	results := make([]result, len(vars))
+	var wg sync.WaitGroup
+	sem := make(chan struct{}, 6)
+	for i, v := range vars {
+		wg.Add(1)
+		sem <- struct{}{}
+		go func(i int, v variant) {
+			defer wg.Done()
+			defer func() { <-sem }()
+			s := src[v.file]
+			mut := append(append(append([]byte{}, s[:v.start]...), []byte(v.repl)...), s[v.end:]...)
+			pg, err := Load(LoadConfig{Overlay: map[string][]byte{v.file: mut}})
+			if err != nil {
+				results[i] = result{v: v, skip: true}
+				return
+			}
+			var by []string
+			for _, b := range bases {
+				rep := newReport(b.prop.ID, "quick")
+				func() {
+					defer func() {
+						if r := recover(); r != nil {
+							rep.Errors = append(rep.Errors, fmt.Sprint(r))
+						}
+					}()
+					c := &Ctx{Prop: b.prop, Tier: "quick", P: pg, Config: "default", rep: rep}
+					b.prop.Run(c)
+				}()
+				viol, undec := false, false
+				for k := range rep.signature() {
+					if !b.sig[k] {
+						if strings.HasSuffix(k, "|violation") {
+							viol = true
+						} else {
+							undec = true
+						}
+					}
+				}
+				if viol {
+					by = append(by, b.prop.ID)
+				} else if undec {
+					by = append(by, b.prop.ID+"?")
+				}
+			}
+			results[i] = result{v: v, by: by}
+		}(i, v)
+	}
+	wg.Wait()
+	nd, nu, ns, nk := 0, 0, 0, 0
+	for _, r := range results {
+		switch {
+		case r.skip:
+			nk++
+		case len(r.by) == 0:
+			ns++
+			fmt.Printf("SURVIVES  %s %s\n", r.v.pos, r.v.desc)
+		default:
+			onlyUndec := true
+			for _, b := range r.by {
+				if !strings.HasSuffix(b, "?") {
+					onlyUndec = false
+				}
+			}
+			if onlyUndec {
+				nu++
+				fmt.Printf("UNDECIDED %s %s %v\n", r.v.pos, r.v.desc, r.by)
+			} else {
+				nd++
+				fmt.Printf("caught    %s %s %v\n", r.v.pos, r.v.desc, r.by)
+			}
+		}
+	}
+	fmt.Printf("sweep-all %s: %d caught, %d undecided only, %d survive, %d do not compile\n", pkgPrefix, nd, nu, ns, nk)
+	return 0
+}
